@@ -14,6 +14,7 @@ import (
 	"time"
 	"unsafe"
 
+	dcp "github.com/Trendyol/go-dcp"
 	"github.com/Trendyol/go-dcp/config"
 	"github.com/Trendyol/go-dcp/couchbase"
 	"github.com/Trendyol/go-dcp/helpers"
@@ -21,7 +22,6 @@ import (
 	"github.com/Trendyol/go-dcp/membership"
 	"github.com/Trendyol/go-dcp/models"
 	"github.com/Trendyol/go-dcp/stream"
-	"github.com/Trendyol/go-dcp/tracing"
 	"github.com/Trendyol/go-dcp/vhook"
 	"github.com/Trendyol/go-dcp/wrapper"
 	"github.com/asaskevich/EventBus"
@@ -89,6 +89,12 @@ func NewWorld(nvb int) *World {
 	return w
 }
 
+func (w *World) SetHigh(vb int, h uint64) {
+	w.mu.Lock()
+	w.High[vb] = h
+	w.mu.Unlock()
+}
+
 func (w *World) StoreEv() []any {
 	w.mu.Lock()
 	defer w.mu.Unlock()
@@ -137,21 +143,27 @@ func (c *Client) GetAgentQueues() []*models.AgentQueue {
 func (c *Client) GetVBucketSeqNos(bool) (*wrapper.ConcurrentSwissMap[uint16, uint64], error) {
 	c.r.S.Emit(Ev{"ev": "SeqNosReq"})
 	v := c.r.S.At("GetVBucketSeqNos", "", nil)
-	if err, ok := v.(error); ok && err != nil {
-		return nil, err
-	}
+	hi := make([]any, c.r.W.NVB)
 	m := wrapper.CreateConcurrentSwissMap[uint16, uint64](16)
 	c.r.W.mu.Lock()
 	for i, h := range c.r.W.High {
 		m.Store(uint16(i), h)
+		hi[i] = Enc(h)
 	}
 	c.r.W.mu.Unlock()
+	latest := c.r.Cfg.Checkpoint.AutoReset == "latest"
+	if err, ok := v.(error); ok && err != nil {
+		c.r.S.Emit(Ev{"ev": "SeqNos", "ok": false, "high": hi, "latest": latest})
+		return nil, err
+	}
+	c.r.S.Emit(Ev{"ev": "SeqNos", "ok": true, "high": hi, "latest": latest})
 	return m, nil
 }
 
 func (c *Client) GetFailOverLogs(vb uint16) ([]gocbcore.FailoverEntry, error) {
-	v := c.r.S.At("GetFailOverLogs", strconv.Itoa(int(vb)+1), nil)
+	v := c.r.S.At("GetFailOverLogs", "", nil)
 	if err, ok := v.(error); ok && err != nil {
+		c.r.S.Emit(Ev{"ev": "Fail", "what": "FoLog"})
 		return nil, err
 	}
 	c.r.W.mu.Lock()
@@ -276,6 +288,7 @@ func (m *Meta) Load(vbs []uint16, b string) (*wrapper.ConcurrentSwissMap[uint16,
 	m.r.S.Emit(Ev{"ev": "Load", "vbs": l})
 	v := m.r.S.At("md.Load", "", nil)
 	if err, ok := v.(error); ok && err != nil {
+		m.r.S.Emit(Ev{"ev": "Fail", "what": "Load"})
 		return nil, false, err
 	}
 	res := wrapper.CreateConcurrentSwissMap[uint16, *models.CheckpointDocument](16)
@@ -361,6 +374,12 @@ func (c *Consumer) ConsumeEvent(ctx *models.ListenerContext) {
 	}
 }
 
+func (c *Consumer) SetHold(h bool) {
+	c.mu.Lock()
+	c.Hold = h
+	c.mu.Unlock()
+}
+
 func (c *Consumer) TrackOffset(vb uint16, o *models.Offset) {
 	c.r.S.Emit(Ev{"ev": "Track", "vb": int(vb) + 1, "off": OffEv(o)})
 }
@@ -376,14 +395,25 @@ func (c *Consumer) Ctx(i int) *Ctx {
 
 // ---- recording event handler -------------------------------------------------------------------------
 
-type Handler struct{ r *Rig }
+type Handler struct {
+	r     *Rig
+	first sync.Once
+}
 
 func (h *Handler) cb(n string)           { h.r.S.Emit(Ev{"ev": "Callback", "name": n}) }
 func (h *Handler) BeforeRebalanceStart() { h.cb("BeforeRebalanceStart") }
 func (h *Handler) AfterRebalanceStart()  { h.cb("AfterRebalanceStart") }
 func (h *Handler) BeforeRebalanceEnd()   { h.cb("BeforeRebalanceEnd") }
 func (h *Handler) AfterRebalanceEnd()    { h.cb("AfterRebalanceEnd") }
-func (h *Handler) BeforeStreamStart()    { h.cb("BeforeStreamStart") }
+func (h *Handler) BeforeStreamStart() {
+	h.cb("BeforeStreamStart")
+	// the membership in effect at start-up arrives over the bus, as from a membership backend
+	h.first.Do(func() {
+		if h.r.Opt.Membership != membership.StaticMembershipType {
+			h.r.Bus.Publish(helpers.MembershipChangedBusEventName, &membership.Model{MemberNumber: h.r.Opt.Member, TotalMembers: h.r.Opt.Total})
+		}
+	})
+}
 func (h *Handler) AfterStreamStart()     { h.cb("AfterStreamStart") }
 func (h *Handler) BeforeStreamStop()     { h.cb("BeforeStreamStop") }
 func (h *Handler) AfterStreamStop()      { h.cb("AfterStreamStop") }
@@ -409,9 +439,10 @@ type Rig struct {
 	Cons          *Consumer
 	H             *Handler
 	Bus           EventBus.Bus
-	VD            stream.VBucketDiscovery
-	Stream        stream.Stream
+	Dcp           dcp.Dcp
 	StopCh        chan struct{}
+	Timers        []*time.Timer // every rebalance timer the stream created, in order
+	StoppedSeen   bool
 	CollectionIDs map[uint32]string
 	Opt           Options
 }
@@ -441,32 +472,32 @@ func Boot(w *World, opt Options) *Rig {
 		cfg.Dcp.Mode = config.DcpModeFinite
 	}
 	cfg.Dcp.Listener.SkipUntil = opt.SkipUntil
-	ms := opt.Membership
-	if ms == "" {
-		ms = membership.StaticMembershipType
+	if opt.Membership == "" {
+		opt.Membership = membership.KubernetesHaMembershipType
 	}
-	cfg.Dcp.Group.Membership.Type = ms
-	cfg.Dcp.Group.Membership.MemberNumber = 1
-	cfg.Dcp.Group.Membership.TotalMembers = 1
-	if opt.Member > 0 {
-		cfg.Dcp.Group.Membership.MemberNumber = opt.Member
-		cfg.Dcp.Group.Membership.TotalMembers = opt.Total
+	if opt.Member == 0 {
+		opt.Member, opt.Total = 1, 1
 	}
+	r.Opt = opt
+	cfg.Dcp.Group.Membership.Type = opt.Membership
+	cfg.Dcp.Group.Membership.MemberNumber = opt.Member
+	cfg.Dcp.Group.Membership.TotalMembers = opt.Total
 	cfg.Dcp.Group.Membership.RebalanceDelay = time.Hour
 	r.Cfg = cfg
 	r.Client = &Client{r: r, Obs: map[uint16]couchbase.Observer{}}
 	r.Meta = &Meta{r: r, inflight: map[string]*saveArgs{}}
 	r.Cons = &Consumer{r: r}
 	r.H = &Handler{r: r}
-	r.Bus = EventBus.New()
-	r.VD = stream.NewVBucketDiscovery(r.Client, cfg, w.NVB, r.Bus)
-	r.StopCh = make(chan struct{}, 1)
+	cfg.API.Disabled = true
+	cfg.HealthCheck.Disabled = true
 	ver := opt.Version
 	if ver == nil {
 		ver = &couchbase.Version{Major: 7, Minor: 6}
 	}
-	r.Stream = stream.NewStream(r.Client, r.Meta, cfg, ver, &couchbase.BucketInfo{}, r.VD, r.Cons,
-		r.CollectionIDs, r.StopCh, r.H, tracing.NewTracerComponent())
+	r.Dcp = dcp.VerifNewDcp(cfg, r.Client, r.Cons, ver, &couchbase.BucketInfo{})
+	r.Dcp.SetMetadata(r.Meta)
+	r.Dcp.SetEventHandler(r.H)
+	_, _, r.Bus, r.StopCh = dcp.VerifParts(r.Dcp)
 	s := r.S
 	vhook.Fn = func(point string, args ...interface{}) {
 		key := ""
@@ -480,9 +511,52 @@ func Boot(w *World, opt Options) *Rig {
 
 var ErrInjected = errors.New("injected failure")
 
+// Stream is the stream object of the dcp (nil before Start created it).
+func (r *Rig) Stream() stream.Stream {
+	st, _, _, _ := dcp.VerifParts(r.Dcp)
+	return st
+}
+
+// Stopped reports whether the stop channel was closed (the client stops on its own).
+func (r *Rig) Stopped() bool {
+	select {
+	case _, ok := <-r.StopCh:
+		return !ok
+	default:
+		return false
+	}
+}
+
+// NoteTimer remembers the stream's current rebalance timer if it is a new one.
+func (r *Rig) NoteTimer() {
+	st := r.Stream()
+	if st == nil {
+		return
+	}
+	f := reflect.ValueOf(st).Elem().FieldByName("rebalanceTimer")
+	t := *(**time.Timer)(unsafe.Pointer(f.UnsafeAddr()))
+	if t == nil {
+		return
+	}
+	for _, x := range r.Timers {
+		if x == t {
+			return
+		}
+	}
+	r.Timers = append(r.Timers, t)
+}
+
 // StateEv is the API-visible state: Stream.GetOffsets(), IsOpen().
 func (r *Rig) StateEv() Ev {
-	offs, _, _ := r.Stream.GetOffsets()
+	st := r.Stream()
+	if st == nil {
+		l := make([]any, r.W.NVB)
+		for i := range l {
+			l[i] = NoOff()
+		}
+		return Ev{"ev": "State", "offsets": l, "open": false, "active": 0}
+	}
+	offs, _, _ := st.GetOffsets()
 	l := make([]any, r.W.NVB)
 	for i := 0; i < r.W.NVB; i++ {
 		l[i] = NoOff()
@@ -495,12 +569,17 @@ func (r *Rig) StateEv() Ev {
 			return true
 		})
 	}
-	return Ev{"ev": "State", "offsets": l, "open": r.Stream.IsOpen()}
+	_, act := st.GetMetric()
+	return Ev{"ev": "State", "offsets": l, "open": st.IsOpen(), "active": int(act)}
 }
 
 // Post is the projection of the implementation state the specification predicts after every step.
 func (r *Rig) Post() Ev {
-	offs, dirty, flag := r.Stream.GetOffsets()
+	st := r.Stream()
+	if st == nil {
+		return Ev{}
+	}
+	offs, dirty, flag := st.GetOffsets()
 	l := make([]any, r.W.NVB)
 	for i := 0; i < r.W.NVB; i++ {
 		l[i] = NoOff()
@@ -532,7 +611,7 @@ func (r *Rig) Post() Ev {
 		}
 	}
 	sort.Strings(pk)
-	_, active := r.Stream.GetMetric()
-	return Ev{"offsets": l, "dirty": ds, "flag": flag, "store": r.W.StoreEv(), "open": r.Stream.IsOpen(),
-		"parked": pk, "active": int(active)}
+	m, active := st.GetMetric()
+	return Ev{"offsets": l, "dirty": ds, "flag": flag, "store": r.W.StoreEv(), "open": st.IsOpen(),
+		"parked": pk, "active": int(active), "rebalances": m.Rebalance, "stopped": r.Stopped()}
 }
